@@ -8,7 +8,7 @@ Engine T x G.  Three families of pool cases, every one enumerated completely:
               scalar queries, every column and the default y=None);
 * 'word'    : one word over {-2,0,1,3}: calc_roll_av_vals for every window 1..len and every mode,
               calc_step_fn_vals_error for pow 1,2 and dir None/up/down, calc_step_fn_steps_vals for every
-              interior split and for ind=None;
+              interior split, for the two end splits (ind=0, ind=len-1: the non-empty side) and for ind=None;
 * 'spectra' : one (site class, Z, R, N): c_h_factor / sd_nzs / t_eff on the period grid (scalar, ndarray, list, tuple)
               and on whole-second periods in integer-typed containers; 'reject': the inputs the functions have to refuse.
 
@@ -21,6 +21,12 @@ sequence of its case (snapshot after every call), every returned array is overwr
 taken; short words also as int64 / tuple / int16 / uint8 (large steps) / float32 and at the scales 2^-30, 2^20 and on a
 level of 2^20; tables and node sets likewise, with queries 1e-7 on either side of every node; A-B-A and
 explicit-then-default call sequences; (Z, R, N) with Z*R below, on and above 0.7.
+
+Round 4: the argument array of every vectorised entry point (queries of interp2d and interp_left, periods of c_h_factor and
+sd_nzs) also in arrangements that are not ascending - descending, every cyclic rotation of the ascending and of the descending
+arrangement (spectra; three rotations for the tables), interleaved, outside-in, every element twice, the whole array twice,
+ascending followed by descending - element by element against the reference / the scalar call for the same element: the result
+for one element does not depend on where it stands in the array or on its neighbours.
 """
 import contextlib
 import io
@@ -91,6 +97,30 @@ NEAR = 1e-7      # queries this far (relative; absolute next to 0) on either sid
 CASE_TIMEOUT = 120
 
 
+def arrangements(n, all_rotations):
+    """Arrangements of an ascending argument array of length n as (name, index list): element i of the arrangement is element
+    idx[i] of the ascending array.  Unordered, descending and repeated layouts; rotations put the largest values in front of the
+    smallest somewhere inside the array (every position with all_rotations, else at one, two and three quarters)."""
+    asc = list(range(n))
+    desc = asc[::-1]
+    out = [('descending', desc)]
+    rots = range(1, n) if all_rotations else sorted(set(k for k in (n // 4, n // 2, (3 * n) // 4) if 0 < k < n))
+    for k in rots:
+        out.append(('ascending rotated by %d' % k, asc[k:] + asc[:k]))
+        out.append(('descending rotated by %d' % k, desc[k:] + desc[:k]))
+    out.append(('interleaved', asc[0::2] + asc[1::2]))
+    out.append(('outside-in', [asc[i // 2] if i % 2 == 0 else asc[n - 1 - i // 2] for i in range(n)]))
+    out.append(('each twice', [i for i in asc for _ in (0, 1)]))
+    out.append(('whole twice', asc + asc))
+    out.append(('ascending then descending', asc + desc))
+    return out
+
+
+def arrangement_class(r, name):
+    r.cls('arranged-' + ('rotated' if 'rotated' in name else 'repeated' if ('twice' in name or 'then' in name) else
+                         'descending' if name == 'descending' else 'unordered'))
+
+
 def period_grid():
     ts = set(INTERIOR_T)
     for tb in BOUNDS_T:
@@ -130,7 +160,11 @@ def build(tier, seed):
                 'copy was taken); words of length <= %d also as %s (rolling average, modes default/backward/centre; step levels; '
                 'float64 variants also step error, dir and automatic split); tables also as %s and nodes+queries as %s, every '
                 'variant with queries 1e-7 on either side of every node; A-B-A sequences for interp2d, the rolling average, '
-                'c_h_factor and sd_nzs; (Z,R,N) in %s (Z*R below, on and above 0.7).  non-trivial = table not identically '
+                'c_h_factor and sd_nzs; (Z,R,N) in %s (Z*R below, on and above 0.7); the query arrays of interp2d / interp_left '
+                '(ndarray and list) and the period containers of c_h_factor / sd_nzs (float grid as ndarray / list, whole seconds '
+                'as int64 ndarray / int list / int tuple) also in the arrangements of arrangements(): descending, ascending and '
+                'descending rotated (every offset for the period grid; one, two, three quarters otherwise), interleaved, '
+                'outside-in, each element twice, whole array twice, ascending then descending.  non-trivial = table not identically '
                 'zero / word not constant / every spectra case'
                 % (L, len(period_grid()), list(INT_T), VARIANT_MAX_LEN, [v[0] for v in WORD_VARIANTS],
                    [v[0] for v in TABLE_VARIANTS], [v[0] for v in NODE_VARIANTS], [list(z) for z in ZRN]),
@@ -140,7 +174,8 @@ def build(tier, seed):
                    'integer_period_containers': ['list', 'tuple', 'ndarray int64', 'ndarray int32'],
                    'word_variants': [v[0] for v in WORD_VARIANTS], 'word_variant_max_len': VARIANT_MAX_LEN,
                    'table_variants': [v[0] for v in TABLE_VARIANTS], 'node_variants': [v[0] for v in NODE_VARIANTS],
-                   'near_node_query_offset': NEAR},
+                   'near_node_query_offset': NEAR,
+                   'argument_arrangements': [a[0] for a in arrangements(8, False)] + ['every rotation offset for the period grid']},
         'required_classes': [
             'nodes-single', 'nodes-two', 'nodes-uniform', 'nodes-nonuniform', 'nodes-wide', 'q-on-node',
             'q-interior', 'q-below-range', 'q-above-range', 'q-nearer-upper-node', 'q-nearer-lower-node',
@@ -150,7 +185,7 @@ def build(tier, seed):
             'roll-window-even', 'roll-window-odd', 'roll-constant-word', 'roll-list-int', 'roll-default-mode',
             'step-pow1', 'step-pow2', 'step-nonneg-data', 'step-neg-side-mean', 'step-list-int',
             'step-dir-penalised', 'step-dir-unchanged', 'step-dir-ambiguous', 'levels-interior',
-            'levels-auto-interior', 'levels-auto-edge',
+            'levels-auto-interior', 'levels-auto-edge', 'levels-end-split',
             'spectra-at-boundary', 'spectra-interior', 'spectra-T0', 'spectra-beyond-corner', 'spectra-scalar-form',
             'spectra-array-form', 'spectra-list-form', 'spectra-tuple-form', 'spectra-int-list-form',
             'spectra-int-tuple-form', 'spectra-int-ndarray-form', 'sd-array-form', 'sd-int-container-form',
@@ -158,6 +193,7 @@ def build(tier, seed):
             'reject-negative-period', 'reject-negative-int-period', 'reject-site-class',
             'argument-reused', 'aba-interp', 'aba-roll', 'aba-spectra', 'step-default-after-explicit',
             'variant-ndarray-i64', 'variant-tuple-int', 'variant-ndarray-i16-transformed', 'variant-ndarray-u8-transformed',
+            'arranged-descending', 'arranged-rotated', 'arranged-unordered', 'arranged-repeated',
             'variant-ndarray-f32', 'variant-ndarray-f64-transformed', 'interp-variant-nodes-transformed',
             'interp-variant-table-transformed', 'zr-product-above-0.7', 'zr-product-at-most-0.7'],
         'assumptions': [
@@ -176,6 +212,9 @@ def build(tier, seed):
             'corner displacement d_c = sd_nzs(3.0) * 9.81 / (2 pi)^2',
             'sd_nzs is documented as "period: float or array", so array periods are in its domain',
             'a query leaves its argument containers unchanged (bit for bit) and returns arrays the caller may overwrite',
+            'query / period arrays may come in any order and may repeat values (nothing in the documentation asks for sorted '
+            'queries; only the NODES of the interpolation helpers are required to increase): the result for an element does '
+            'not depend on its position',
             'transformed variants: samples w*mult+offset exactly representable in the stated type; references are exact '
             'rationals of the values actually passed, tolerances relative to their peak; integer and float32 input of the '
             'step error is not examined beyond the historical int list (open finding step-error-int-truncation; float32 input '
@@ -382,6 +421,17 @@ def run_interp(r, case):
             r.expect('interp2d.repeatable', sub, bits_equal(out, first[('float', 'sorted')]),
                      'the same call gives a different result after a call with other queries', observed=out,
                      expected=first[('float', 'sorted')])
+    # query arrays that are not ascending (the reversed one is above): unordered, rotated, repeated
+    for aname, perm in arrangements(len(qs), False)[1:]:
+        sub = dict(base, fn='interp2d', dtype='float', x=aname)
+        r.states += 1
+        r.transitions += 1
+        arrangement_class(r, aname)
+        sq = Shared('x', np.array([qs[i] for i in perm]))
+        ok, out = call_shared(r, 'interp2d.arrangement', sub, (sq, sh_x, sh_f), fns.interp2d, sq.obj, xf_a, f_a)
+        if ok:
+            r.expect_close('interp2d.arrangement', sub, out, [want[i] for i in perm], rtol=1e-9, atol=1e-12, scale=scale,
+                           what='row i vs the column-wise interpolation at query i of the arrangement')
     for q, wq in zip(qs, want):
         sub = dict(base, fn='interp2d', dtype='float', x=[q])
         r.states += 1
@@ -418,6 +468,23 @@ def run_interp(r, case):
             ok, out = call_shared(r, 'interp_left', sub, (sh_x, sh_y), fns.interp_left, q, xf_a, sh_y.obj)
             if ok:
                 r.expect_close('interp_left', sub, out, y1, rtol=1e-12, atol=0.0, scale=scale)
+    # query arrays / lists that are not ascending: column 0 and the default y (node indices)
+    sh_y0 = Shared('y', np.array(cols[0], dtype=float))
+    for aname, perm in arrangements(len(ql), False):
+        arrangement_class(r, aname)
+        for form in ('ndarray', 'list'):
+            sub = dict(base, fn='interp_left', col=0, x0=form, arrangement=aname)
+            r.states += 2
+            r.transitions += 2
+            sq = Shared('x0', np.array([ql[i] for i in perm]) if form == 'ndarray' else [ql[i] for i in perm])
+            ok, out = call_shared(r, 'interp_left.arrangement', sub, (sq, sh_x, sh_y0), fns.interp_left, sq.obj, xf_a, sh_y0.obj)
+            if ok:
+                r.expect_close('interp_left.arrangement', sub, out, [float(cols[0][idx[i]]) for i in perm], rtol=1e-12, atol=0.0,
+                               scale=scale, what='element i vs the value at the greatest node not exceeding query i of the arrangement')
+            sub = dict(base, fn='interp_left', col=None, x0=form, arrangement=aname)
+            ok, out = call_shared(r, 'interp_left.arrangement', sub, (sq, sh_x), fns.interp_left, sq.obj, xf_a)
+            if ok:
+                r.expect_ints('interp_left.arrangement', sub, out, [idx[i] for i in perm])
     sub = dict(base, fn='interp_left', col=None, x0='ndarray')
     r.states += 1
     r.cls('left-default-y')
@@ -476,6 +543,13 @@ def run_interp(r, case):
         block('x', 1, 0, ttag, tmult, toff, ttyp)
     for ntag, nmult, noff in NODE_VARIANTS:
         block(ntag, nmult, noff, 'f64', 1, 0, float)
+
+
+def _no_warn(fn, *a, **k):
+    import warnings
+    with warnings.catch_warnings():
+        warnings.simplefilter('ignore')
+        return fn(*a, **k)
 
 
 def _is_int(x):
@@ -684,6 +758,23 @@ def word_checks(r, w, tag, mult, off, typ, kinds, plain):
                     r.fail('step-levels', sub, 'result is not a (pre, post) pair', observed=out)
                     continue
                 r.expect_close('step-levels', sub, [pre, post], list(want), **lev_tol)
+    # split sample at either end of the series (ind = 0 is a falsy index and not the default None; ind = n-1 is the last one):
+    # the side that has samples is their mean, the level of the empty side is unconstrained
+    for ind, side in ((0, 'post'), (n - 1, 'pre')):
+        want1 = float(mean_fr(wx[1:])) if side == 'post' else float(mean_fr(wx[:n - 1]))
+        sub = {'w': w, 'ind': ind, 'values': tag}
+        r.states += 1
+        if plain:
+            r.cls('levels-end-split')
+        with np.errstate(all='ignore'):
+            ok, out = call_shared(r, 'step-levels', sub, (sh,), _no_warn, fns.calc_step_fn_steps_vals, arg, ind)
+        if ok:
+            try:
+                pre, post = out
+            except Exception:
+                r.fail('step-levels', sub, 'result is not a (pre, post) pair', observed=out)
+                continue
+            r.expect_close('step-levels', sub, [post if side == 'post' else pre], [want1], **lev_tol)
     if 'e' not in kinds:
         return
     err1 = ref_step_err(wx, 1)
@@ -876,6 +967,32 @@ def run_spectra(r, case):
             r.expect_close('sd-identity', sub, out_sd, want, rtol=1e-12, atol=0.0,
                            what='sd_nzs(periods) vs c_h_factor(periods) T^2 Z N R, both with periods given as %s' % form)
 
+    # ---- period containers that are not ascending: descending, every cyclic rotation of the ascending and of the descending
+    #      grid, interleaved, outside-in, repeated - element by element the scalar-call values of the same periods (which the
+    #      identity S_d = C_h T^2 Z N R was checked on above); the whole-second periods likewise in integer-typed containers
+    plans = []
+    if len(ch) == len(ts) and len(sd) == len(ts):
+        plans.append(('grid', ts, ch, sd, True, (('ndarray', lambda v: np.array(v)), ('list', list))))
+    if all(float(t) in chs and float(t) in sds for t in INT_T):
+        plans.append(('whole-seconds', [int(t) for t in INT_T], chs, sds, False,
+                      (('ndarray-int64', lambda v: np.array(v, dtype=np.int64)), ('list-int', list), ('tuple-int', tuple))))
+    for pname, tvals, chref, sdref, all_rot, forms in plans:
+        for aname, perm in arrangements(len(tvals), all_rot):
+            arrangement_class(r, aname)
+            tp = [tvals[i] for i in perm]
+            for form, mk in forms:
+                sub = dict(base, T=pname, form=form, arrangement=aname)
+                r.states += 2
+                r.transitions += 2
+                for fname, fn, extra, ref in (('ch', ds.c_h_factor, (sc,), chref), ('sd', ds.sd_nzs, (sc, z, rf, nf), sdref)):
+                    arg = mk(tp)
+                    ok, out = r.call(fname + '.arrangement', sub, _quiet, fn, arg, *extra)
+                    if ok:
+                        r.expect_close(fname + '.arrangement', sub, out, [ref[float(t)] for t in tp], rtol=1e-12, atol=0.0,
+                                       what='element i vs the scalar call for period i of the arrangement')
+                        r.expect(fname + '.argument-unchanged', sub, _same_container(arg, mk(tp)),
+                                 'the period container was modified', observed=arg, expected=tp)
+
     # ---- continuity to table precision across every segment boundary
     for fname, tab in (('ch', ch), ('sd', sd)):
         for tb in (0.0,) + BOUNDS_T:
@@ -990,10 +1107,40 @@ def run_case(case):
     return r
 
 
+def _arranged(values, name, all_rotations):
+    for aname, perm in arrangements(len(values), all_rotations):
+        if aname == name:
+            return [values[i] for i in perm]
+    return None
+
+
 def snippet(case, v):
     sub = v.get('sub') or {}
     k = case.get('k')
     head = "import numpy as np, eqsig\nfrom eqsig import design_spectra as ds\ncase = %r\nsub = %r\n" % (case, sub)
+    claim = v.get('claim', '')
+    if claim.endswith('.arrangement') and k == 'spectra':
+        whole = sub.get('T') == 'whole-seconds'
+        tp = _arranged([int(t) for t in INT_T] if whole else period_grid(), sub.get('arrangement'), not whole)
+        return head + ("T = %r   # the %s periods, %s\n"
+                       "T = {'ndarray': np.array(T), 'ndarray-int64': np.array(T), 'tuple-int': tuple(T)}.get(sub['form'], T)\n"
+                       "sc = case['sc']; z, r_, n = case['zrn']\n"
+                       "print(ds.sd_nzs(T, sc, z, r_, n)); print([ds.sd_nzs(float(t), sc, z, r_, n) for t in T])\n"
+                       "print(ds.c_h_factor(T, sc)); print([ds.c_h_factor(float(t), sc) for t in T])\n"
+                       % (tp, sub.get('T'), sub.get('arrangement')))
+    if claim.endswith('.arrangement') and k == 'interp':
+        xf = [float(x) for x in case['xf']]
+        qs = query_menu(xf)
+        if sub.get('fn') == 'interp_left':
+            qs = [q for q in qs if q >= xf[0]]
+        qa = _arranged(qs, sub.get('arrangement', sub.get('x')), False)
+        return head + ("x = %r   # the query menu, %s\n"
+                       "xf = np.array(case['xf']); f = np.array(case['f'], float)\n"
+                       "if sub['fn'] == 'interp2d': print(eqsig.fns.interp2d(np.array(x), xf, f))\n"
+                       "else: print(eqsig.fns.interp_left(np.array(x) if sub['x0'] == 'ndarray' else x, xf, "
+                       "None if sub['col'] is None else f[:, sub['col']]))\n"
+                       "print([np.interp(q, xf, f[:, 0]) for q in x], [int(np.sum(xf <= q)) - 1 for q in x])   # column 0 / node index\n"
+                       % (qa, sub.get('arrangement', sub.get('x'))))
     if k == 'interp':
         return head + ("# sub.get('nodes') / sub.get('table'): transformed node set / table (NODE_VARIANTS, TABLE_VARIANTS in c20.py)\n"
                        "xf = np.array(case['xf']); f = np.array(case['f'], float)\n"
